@@ -239,7 +239,15 @@ def _parse_normalised(src: str) -> ast.AST:
     key = hashlib.sha256(src.encode()).hexdigest() + os.environ.get("SA_NO_NORMAL", "")
     blob = _NORM_CACHE.get(key)
     if blob is None:
-        tree = _normalise(ast.parse(src))
+        raw = ast.parse(src)
+        try:
+            tree = _normalise(raw)
+            compile(ast.fix_missing_locations(tree), "<normal form>", "exec")  # the normal form must still be a program
+        except SyntaxError:
+            raise
+        except Exception:  # noqa -- a pass that chokes on an unforeseen construct must not take the analysis down: analyse the module as written
+            tree = _AnnToAssign().visit(ast.parse(src))
+            ast.fix_missing_locations(tree)
         try:
             _NORM_CACHE[key] = pickle.dumps(tree, protocol=pickle.HIGHEST_PROTOCOL)
         except Exception:  # noqa
@@ -305,7 +313,10 @@ class Project:
         self.drift_log: List[str] = []
         if os.environ.get("SA_NO_DRIFT") != "1":
             from .drift import canonicalise_drift, load_table
-            self.drift_log = canonicalise_drift({m.name: m.tree for m in self.modules.values()}, load_table())
+            try:
+                self.drift_log = canonicalise_drift({m.name: m.tree for m in self.modules.values()}, load_table())
+            except Exception as e:  # noqa -- recognition is a convenience; without it the tree is analysed as it stands
+                self.drift_log = [f"drift canonicalisation skipped ({type(e).__name__}: {e})"]
             if self.drift_log:
                 from .normal import normalise as _renorm
                 for m in self.modules.values():
@@ -324,7 +335,10 @@ class Project:
             from .inline import inline_helpers
             self.inline_log = inline_helpers(self)
         from .canon import canonicalise
-        canonicalise(self)
+        try:
+            canonicalise(self)
+        except Exception as e:  # noqa -- role names are a convenience for the rules; without them the function is judged under its own names
+            self.inline_log.append(f"role canonicalisation skipped ({type(e).__name__}: {e})")
 
     # ------------------------------------------------------------------ loading
     def _load(self):
